@@ -46,5 +46,30 @@ ASSUME RleRoundTrip ==
      /\ RleDecode(RleLit(s), n) = [ok |-> TRUE, out |-> s]
      /\ RleDecode(RleEach(s), n) = [ok |-> TRUE, out |-> s]
      /\ ~RleDecode(RleEach(s), n + 1).ok
+\* round 4 -- the whole control-byte space: for every control byte cb a string holding exactly one run of
+\* RunLen(cb) bytes of cb's kind between delimiters of the other kind; the canonical encoding uses cb, and
+\* decoding inverts it; decoding the run alone yields RunLen(cb) bytes of that kind
+RunOf(cb)   == [j \in 1..RunLen(cb) |-> IF RunIsLit(cb) THEN 1 + (j % 255) ELSE 0]
+Framed(cb)  == IF RunIsLit(cb) THEN <<0>> \o RunOf(cb) \o <<0>> ELSE <<9>> \o RunOf(cb) \o <<7>>
+ASSUME RleCtlSpace ==
+  \A cb \in 0..255 :
+     /\ cb \in CtlBytes(RleEncode(Framed(cb)))
+     /\ RleDecode(RleEncode(Framed(cb)), Len(Framed(cb))) = [ok |-> TRUE, out |-> Framed(cb)]
+     /\ RleDecode(<<cb>> \o (IF RunIsLit(cb) THEN RunOf(cb) ELSE <<>>), RunLen(cb)) = [ok |-> TRUE, out |-> RunOf(cb)]
+     /\ ~RleDecode(<<cb>> \o (IF RunIsLit(cb) THEN RunOf(cb) ELSE <<>>), RunLen(cb) + 1).ok
+\* runs longer than one control byte can express are cut into maximal pieces (0xFF / 0x7F first)
+LongRun(lit, n) == <<(IF lit THEN 0 ELSE 5)>> \o [j \in 1..n |-> IF lit THEN 1 + (j % 255) ELSE 0] \o <<(IF lit THEN 0 ELSE 5)>>
+ASSUME RleLongRuns ==
+  \A n \in {129, 255, 256, 257, 384, 400} : \A lit \in BOOLEAN :
+     /\ RleDecode(RleEncode(LongRun(lit, n)), n + 2) = [ok |-> TRUE, out |-> LongRun(lit, n)]
+     /\ (IF lit THEN 255 ELSE 127) \in CtlBytes(RleEncode(LongRun(lit, n)))
+\* the image encoder and the image parser are inverse
+ASSUME ImageRoundTrip ==
+  \A c \in {<<>>, <<[add |-> 3, mov |-> 2, seek |-> 1]>>, <<[add |-> 300, mov |-> 0, seek |-> 70000]>>,
+             <<[add |-> 1, mov |-> 0, seek |-> 0], [add |-> 2, mov |-> 129, seek |-> 5]>>} :
+     LET d  == [j \in 1..DataPre(c, Len(c) + 1) |-> j % 256]
+         e  == [j \in 1..ExtPre(c, Len(c) + 1) |-> (7 * j) % 256]
+         im == Bsd0Image(ImageOf(c, d, e, Len(d) + Len(e)))
+     IN  im.ok /\ im.ctrl = c /\ im.data = d /\ im.extra = e /\ im.newSize = Len(d) + Len(e)
 ASSUME RleZeros == RleDecode(<<4, 129, 9, 8, 0>>, 8) = [ok |-> TRUE, out |-> <<0, 0, 0, 0, 0, 9, 8, 0>>]
 =============================================================================
